@@ -109,6 +109,15 @@ class CallContract(Stmt):
         self.args = args or {}
 
 
+class AssumeForall(Stmt):
+    """library fact with a quantifier: forall k in [lo,hi): body(k); instantiated by the generator"""
+    def __init__(self, lo, hi, body, why=''):
+        self.lo = E.const(lo)
+        self.hi = E.const(hi)
+        self.body = body
+        self.why = why
+
+
 class Comment(Stmt):
     def __init__(self, text):
         self.text = text
